@@ -432,8 +432,8 @@ func (w *World) BuildTx(t *Tx, forCheck bool) *BuiltTx {
 
 // stableReject: reasons for a refusal that no earlier message of the same transaction can remove (ownership and the
 // signer set do not change inside a transaction, recorded heights and limits only grow, decisions only accumulate, order
-// statuses move in begin-block only, and the harness has no message that creates an authz grant). The other reasons
-// (unknown identifier, purchaser not whitelisted, stream not there) can be cured by an earlier message.
+// statuses move in begin-block only). The other reasons (unknown identifier, purchaser not whitelisted, stream not
+// there, missing authz grant) can be cured by an earlier message.
 var stableReject = map[string]bool{
 	"message names an account that did not sign the transaction": true,
 	"record by someone other than the owner":                     true,
